@@ -317,7 +317,14 @@ func (c *loggedConn) CloseResponse() error {
 	if err != nil {
 		r = "err"
 	}
-	c.rec.Add(E("ret", "op", "closeresp", "res", r, "code", codeOf(err)))
+	msg := ""
+	if err != nil {
+		msg = err.Error()
+		if len(msg) > 120 {
+			msg = msg[:120]
+		}
+	}
+	c.rec.Add(E("ret", "op", "closeresp", "res", r, "code", codeOf(err), "msg", msg))
 	return err
 }
 func (l connLogger) WrapUnary(next connect.UnaryFunc) connect.UnaryFunc { return next }
